@@ -595,19 +595,39 @@ func factsMain(args []string) error {
 							continue
 						}
 						kind := ""
+						mutableType := func(t ast.Expr) string {
+							switch tt := t.(type) {
+							case *ast.MapType:
+								return "map"
+							case *ast.ArrayType:
+								return "slice"
+							case *ast.SelectorExpr:
+								if id, ok := tt.X.(*ast.Ident); ok {
+									q := id.Name + "." + tt.Sel.Name
+									switch q {
+									case "bytes.Buffer", "strings.Builder", "sync.Mutex", "sync.RWMutex", "sync.Once", "atomic.Value", "atomic.Int64", "atomic.Int32", "atomic.Pointer":
+										return q
+									}
+								}
+							case *ast.StarExpr:
+								return "pointer"
+							}
+							return ""
+						}
 						if x.Type != nil {
 							kind = isShared(x.Type)
-							if _, ok := x.Type.(*ast.MapType); ok {
-								kind = "map"
+							if k := mutableType(x.Type); k != "" && kind == "" {
+								kind = k
 							}
 						}
 						for _, v := range x.Values {
 							if cl, ok := v.(*ast.CompositeLit); ok {
 								if k := isShared(cl.Type); k != "" {
 									kind = k
-								}
-								if _, ok := cl.Type.(*ast.MapType); ok {
-									kind = "map"
+								} else if k := mutableType(cl.Type); k != "" {
+									kind = k
+								} else if kind == "" {
+									kind = "struct value"
 								}
 							}
 							if ue, ok := v.(*ast.UnaryExpr); ok {
@@ -618,15 +638,19 @@ func factsMain(args []string) error {
 								}
 							}
 							if ce, ok := v.(*ast.CallExpr); ok {
-								if id, ok := ce.Fun.(*ast.Ident); ok && id.Name == "make" && len(ce.Args) > 0 {
-									if _, ok := ce.Args[0].(*ast.MapType); ok {
-										kind = "map"
+								if id, ok := ce.Fun.(*ast.Ident); ok && (id.Name == "make" || id.Name == "new") && len(ce.Args) > 0 {
+									kind = id.Name
+									if k := mutableType(ce.Args[0]); k != "" {
+										kind = k
 									}
 								}
 							}
 						}
 						if kind != "" {
 							for _, n := range x.Names {
+								if n.Name == "_" || (kind == "pointer" && len(x.Values) == 0) {
+									continue
+								}
 								shared = append(shared, filepath.ToSlash(rel)+": var "+n.Name+" "+kind)
 							}
 						}
@@ -646,7 +670,7 @@ func factsMain(args []string) error {
 		}
 	}
 	sort.Strings(shared)
-	fmt.Fprintf(&sb, "/-- process-wide or manager-wide shared containers (sync.Pool / sync.Map variables and fields, package-level maps) -/\ndef sharedContainers : List String := %s\n", leanList(shared))
+	fmt.Fprintf(&sb, "/-- process-wide or manager-wide mutable state: package-level variables that are containers, buffers, locks, atomics or pointers to composite values, and struct fields of type sync.Pool / sync.Map -/\ndef sharedContainers : List String := %s\n", leanList(shared))
 
 	// ---- every call of Combine(child, parent) in html/template.go and exp/scope.go: (enclosing function, head of the
 	// child argument, the parent argument). Lookup is child first (C06): the parent must be the OUTER scope at every site.
